@@ -26,6 +26,16 @@ type AsmCase struct {
 	Same   []string            `json:"same,omitempty"` // optional: a second program that must give byte-identical output
 }
 
+// fileText: the bytes of an include/exclude file of a model; files whose name starts with "nonl"
+// are written without the final line break.
+func fileText(path string, ls []string) string {
+	t := strings.Join(ls, "\n")
+	if strings.HasPrefix(filepath.Base(path), "nonl") {
+		return t
+	}
+	return t + "\n"
+}
+
 func (a *AsmCase) text() string { return strings.Join(a.Lines, "\n") + "\n" }
 
 type poolInfo struct {
@@ -173,9 +183,17 @@ func (r *asmReplayer) onCase(raw []byte) error {
 			// the file set shared by all cases of this model (never written by generate)
 			t := Tree{}
 			for p, ls := range pi.Files {
-				t["regex-assembly/"+p] = strings.Join(ls, "\n") + "\n"
+				t["regex-assembly/"+p] = fileText(p, ls)
 			}
 			if err := writeTree(r.root, t); err != nil {
+				return err
+			}
+			// files of the same names in the WORKING directory of the runs: never to be read
+			dec := Tree{}
+			for p := range pi.Files {
+				dec[filepath.Base(p)] = "zz\n"
+			}
+			if err := writeTree(r.root, dec); err != nil {
 				return err
 			}
 			r.sharedFiles = pi.Files
@@ -288,7 +306,7 @@ func (r *asmReplayer) prepare(cs *AsmCase) (string, func(), error) {
 	}
 	t := Tree{"regex-assembly/": ""}
 	for p, ls := range cs.Files {
-		t["regex-assembly/"+p] = strings.Join(ls, "\n") + "\n"
+		t["regex-assembly/"+p] = fileText(p, ls)
 	}
 	if cs.Config != "" {
 		t["regex-assembly/toolchain.yaml"] = cs.Config
@@ -589,7 +607,7 @@ func replayAssembly(c *Ctx, detail map[string]any) (bool, string, error) {
 	}
 	t := Tree{"regex-assembly/": ""}
 	for p, ls := range d.Files {
-		t["regex-assembly/"+p] = strings.Join(ls, "\n") + "\n"
+		t["regex-assembly/"+p] = fileText(p, ls)
 	}
 	cfg := d.Config
 	if cfg == "" {
